@@ -206,7 +206,9 @@ def slice_with_newaxes(out_name, in_name, blockdims, index):
                 k2 = (out_name,) + expand(k[1:], 0)
                 if isinstance(v.args[1], TaskRef):
                     # positional indexing with newaxis
-                    indexer = expand_orig(dsk[v.args[1].key].value[1], None)
+                    # the taker was built after the integers of the index were
+                    # applied: its axes are the ones that are left
+                    indexer = expand(dsk[v.args[1].key].value[1], None)
                     tok = "shuffle-taker-" + tokenize(indexer)
                     dsk2[tok] = DataNode(tok, (1, indexer))
                     arg = TaskRef(tok)
